@@ -375,11 +375,21 @@ PACKET_BODIES = [
 ]
 
 
+FIXED_WIDTH = ["read_int_1", "read_uint_1", "read_int_2", "read_uint_2", "read_uint_3", "read_int_4", "read_uint_4", "read_uint_6",
+               "read_int_8", "read_uint_8", "read_float", "read_double", "uint_1", "uint_2", "uint_3", "uint_4", "uint_6", "uint_8",
+               "str_fixed", "str_null", "str_len", "str_rest", "read_str_fixed", "read_str_rest", "peek"]
+
+
 def facts_packets():
     out = []
     trees = {"packets.py": parse("packets.py"), "types.py": parse("types.py")}
     for key in PACKET_BODIES:
         body_fact(key, out)
+    # the fixed-width readers / writers every parser and encoder is built from: one aggregated fact
+    scratch = []
+    allok = all([body_fact("types.py::" + fn, scratch) for fn in FIXED_WIDTH])
+    out += [l for l in scratch if l.startswith("(*")]
+    out.append(f"Definition types_fixed_width_ok : bool := {'true' if allok else 'false'}.")
     # the interpolation loop must splice by position (no regex substitution of the values)
     pk = trees["packets.py"]
     ip = find_func(pk, "_interpolate_params")
